@@ -46,23 +46,19 @@ def sh(cmd, cwd=None, timeout=None):
     return p.returncode, p.stdout
 
 
-def build_all(prop_modules):
+def build_all(prop_modules, arr=False):
     """(re)build the Lean model/driver/proof modules and the Rust harness from /repo's working tree."""
     notes = {}
     with Lock(".build.lock"):
         t0 = time.time()
-        targets = ["slvmodel"]
-        if "slvarr" in open(os.path.join(LEAN, "lakefile.toml")).read():
-            targets.append("slvarr")
+        targets = ["slvarr"] if arr else ["slvmodel"]
         rc, out = sh(["lake", "build"] + targets + prop_modules, cwd=LEAN)
         notes["lake_build_rc"] = rc
         notes["lake_build_s"] = round(time.time() - t0, 1)
         if rc != 0:
             notes["lake_build_tail"] = out[-3000:]
         t0 = time.time()
-        rc2, out2 = sh(["cargo", "build", "--release", "--offline"], cwd=HARNESS)
-        if rc2 == 0 and os.path.isdir(HARNESS_ARR):
-            rc2, out2 = sh(["cargo", "build", "--release", "--offline"], cwd=HARNESS_ARR)
+        rc2, out2 = sh(["cargo", "build", "--release", "--offline"], cwd=HARNESS_ARR if arr else HARNESS)
         notes["cargo_build_rc"] = rc2
         notes["cargo_build_s"] = round(time.time() - t0, 1)
         if rc2 != 0:
